@@ -239,7 +239,9 @@ class C16(Check):
         return replay_c16(cex)
 
     def finding_of(self, cex):
-        if cex["cfg"]["cls"] == "SMCSamples" and cex.get("label") == "concat/beta":
+        lab = str(cex.get("label", ""))
+        has_concat = any(op[0] == "split_concat" for op in cex["cfg"]["seq"])
+        if cex["cfg"]["cls"] == "SMCSamples" and has_concat and (lab.endswith("/beta") or lab == "evidence_carried"):
             return "C16-D11"
         return None
 
